@@ -319,26 +319,42 @@ func (e *kinEnv) check(withLost bool) string {
 	return "ok"
 }
 
-// implKin runs the case; if an output shows noise of the in-process HTTP transport between the AWS client and the
-// fake (a connection closed under the client, a wait that hit its last-resort bound), the whole case is run again on a
-// fresh fake, client and splitter. Behaviour of the splitter is deterministic in the ops, so a defect shows in every
-// attempt, while the noise does not repeat.
-func implKin(c lib.Case, shards, runners int) []string {
+// c16Noisy recognises outputs that come from the test rig rather than from the behaviour under test: a wait that hit
+// its last-resort bound (an overloaded machine, or a stall elsewhere in the pipeline) or noise of the in-process HTTP
+// transport. Such an attempt is abandoned at once and the whole case is run again on a fresh rig (c16Retry); only an
+// outcome that shows in every attempt is reported.
+func c16Noisy(o string) bool {
+	return o == "stuck" || strings.HasPrefix(o, "stuck-") || strings.HasPrefix(o, "timeout") || strings.HasPrefix(o, "setup-error") ||
+		strings.Contains(o, "use of closed network connection") || strings.Contains(o, "failed to decode response body") ||
+		strings.Contains(o, "connection reset")
+}
+
+// c16Abandoned reports whether the attempt already produced a noisy output (the remaining ops are then skipped).
+func c16Abandoned(out []string) bool {
+	return len(out) > 0 && (out[len(out)-1] == "abandoned" || c16Noisy(out[len(out)-1]))
+}
+
+func c16Retry(run func() []string) []string {
 	var out []string
 	for attempt := 0; attempt < 3; attempt++ {
-		out = implKinOnce(c, shards, runners)
+		out = run()
 		noisy := false
 		for _, o := range out {
-			if o == "stuck" || strings.HasPrefix(o, "setup-error") || strings.Contains(o, "use of closed network connection") ||
-				strings.Contains(o, "failed to decode response body") || strings.Contains(o, "connection reset") {
-				noisy = true
-			}
+			noisy = noisy || c16Noisy(o)
 		}
 		if !noisy {
 			break
 		}
 	}
 	return out
+}
+
+// implKin runs the case; if an output shows noise of the in-process HTTP transport between the AWS client and the
+// fake (a connection closed under the client, a wait that hit its last-resort bound), the whole case is run again on a
+// fresh fake, client and splitter. Behaviour of the splitter is deterministic in the ops, so a defect shows in every
+// attempt, while the noise does not repeat.
+func implKin(c lib.Case, shards, runners int) []string {
+	return c16Retry(func() []string { return implKinOnce(c, shards, runners) })
 }
 
 func implKinOnce(c lib.Case, shards, runners int) []string {
@@ -353,6 +369,10 @@ func implKinOnce(c lib.Case, shards, runners int) []string {
 	}
 	ctx := context.Background()
 	for _, op := range c.Ops {
+		if c16Abandoned(out) {
+			out = append(out, "abandoned")
+			continue
+		}
 		f := strings.Fields(op)
 		if e.splitter == nil && f[0] != "start" && f[0] != "restore" && f[0] != "split" && f[0] != "merge" {
 			out = append(out, "not-started")
@@ -826,6 +846,10 @@ func implCut(c lib.Case, maxSize, delayMs, nOps int) []string {
 	defer e.close()
 	started := false
 	for _, op := range c.Ops {
+		if c16Abandoned(out) {
+			out = append(out, "abandoned")
+			continue
+		}
 		f := strings.Fields(op)
 		switch f[0] {
 		case "assign":
@@ -951,6 +975,10 @@ func implECut(c lib.Case, maxSize, delayMs, nOps, splitCount, batchSize int) []s
 	sr.HandleDeploy(ctx, &workerpb.DeploySourceRunnerRequest{Operators: nodes, KeyGroupCount: 16, Sources: []*jobconfigpb.Source{{}}})
 	inits := map[int]int64{}
 	for _, op := range c.Ops {
+		if c16Abandoned(out) {
+			out = append(out, "abandoned")
+			continue
+		}
 		f := strings.Fields(op)
 		switch f[0] {
 		case "assign":
@@ -997,7 +1025,7 @@ func implECut(c lib.Case, maxSize, delayMs, nOps, splitCount, batchSize int) []s
 				}
 				select {
 				case <-o.barriers:
-				case <-time.After(2 * c16Wait):
+				case <-time.After(c16Wait):
 					res = "timeout-barrier"
 				}
 			}
@@ -1274,6 +1302,10 @@ func implJob(c lib.Case) []string {
 		return fmt.Sprintf("dep %s | %s@%s ; %s", dep, splits[0].SplitId, cur, verdict)
 	}
 	for _, op := range c.Ops {
+		if c16Abandoned(out) {
+			out = append(out, "abandoned")
+			continue
+		}
 		f := strings.Fields(op)
 		switch {
 		case f[0] == "deploy":
@@ -1977,11 +2009,11 @@ func propC16() *lib.Prop {
 			case mode == "kin" && len(a) == 2:
 				return implKin(c, a[0], a[1])
 			case mode == "cut" && len(a) == 3:
-				return implCut(c, a[0], a[1], a[2])
+				return c16Retry(func() []string { return implCut(c, a[0], a[1], a[2]) })
 			case mode == "job":
-				return implJob(c)
+				return c16Retry(func() []string { return implJob(c) })
 			case mode == "ecut" && len(a) == 5:
-				return implECut(c, a[0], a[1], a[2], a[3], a[4])
+				return c16Retry(func() []string { return implECut(c, a[0], a[1], a[2], a[3], a[4]) })
 			default:
 				return implMisc(c)
 			}
